@@ -61,11 +61,12 @@ def strategy(tier):
     maxlen = 30 if tier == "quick" else 80
     op = st.tuples(st.sampled_from(OPS_W), st.integers(0, 11), st.integers(0, 11), st.integers(0, 47))
     return st.builds(
-        lambda nv, nuni, ops, vcls: {"nv": nv, "nuni": nuni, "vcls": vcls, "dupuid": bool(vcls and vcls[0] == 0 and len(vcls) == 2), "ops": [list(o) for o in ops]},
+        lambda nv, nuni, ops, vcls, every: {"nv": nv, "nuni": nuni, "vcls": vcls, "dupuid": bool(vcls and vcls[0] == 0 and len(vcls) == 2), "ops": [list(o) for o in ops], **({"every": every} if every > 1 else {})},
         st.integers(2, 5),
         st.integers(0, 1),
         st.lists(op, max_size=maxlen),
         st.one_of(st.none(), st.lists(st.integers(0, 5), min_size=1, max_size=4)),
+        st.sampled_from([1, 1, 1, 2, 3, 5, 1000]),
     )
 
 
@@ -183,6 +184,7 @@ def check_case(case):
     changing = 0
     alias = False
     raised = 0
+    every = max(1, int(case.get("every", 1)))
     for step, op in enumerate(case["ops"]):
         r = w.resolve(op)
         if r is None:
@@ -239,6 +241,12 @@ def check_case(case):
             raised += 1
             alias = True
             classes.add("raised-" + type(e).__name__)
-        _invariant(w, f"after step {step} {list(r)}")
+        # the accessors are read after every call, or (case["every"] = n) only after every n-th one: a caller that does
+        # several things before looking must see the same graph
+        if step % every == every - 1:
+            _invariant(w, f"after step {step} {list(r)}")
+    _invariant(w, "at the end of the history")
+    if every > 1:
+        classes.add("accessors-read-every-%d-calls" % every)
     nt = changing >= 3 and alias
     return dict(nt=nt, classes=sorted(classes), enum_scope=(case["nv"] == 2 and len(case["ops"]) <= 3 and case.get("nuni", 0) == 0 and False))
